@@ -50,7 +50,9 @@ def split_pieces(rng, data):
 
 
 RESPS = [[1, 1, []], [1, 2, []], [0, 1, [[0, b'ok']]], [1, 5, [[0, b'{"fault":"nf"}']]], [1, 1, [[0, b'z' * 3000]]],
-         [1, 3, [[0, b'bad']]], [1, 1, [[2], [0, b'dep']]]]
+         [1, 3, [[0, b'bad']]], [1, 1, [[2], [0, b'dep']]],
+         # a body on a status that starts without Content-Length (204, 100): the length is announced and the body sent
+         [1, 2, [[0, b'gone']]], [0, 0, [[0, b'interim body']]], [1, 2, [[3], [0, b'x' * 40]]]]
 
 
 class Hist:
@@ -164,7 +166,7 @@ def adversarial(rng):
             if q < 0.25:
                 h.request(o, pipelined=rng.choice([1, 2]), poll_between=False)
             elif q < 0.4:
-                k = rng.choice([0, 1, 2, 3, 100, 126, 127, 128, 129, 500])
+                k = rng.choice([0, 1, 2, 3, 100, 126, 127, 128, 129, 254, 255, 256, 257, 500, 511, 512, rng.randint(0, 1000), rng.randint(0, 1000)])
                 h.ops.append([1, o, rng.choice([b'garbage\r\n\r\n', b'GET\r\n', b'PUT /x HTTP/1.1\r\nContent-Length: 99999999\r\n\r\n',
                                                 b'GET /partial HTT', b'\r\n', b'PUT /c%d/big HTTP/1.1\r\nContent-Length: 10\r\n\r\nabc' % o,
                                                 b'GET / HTTP/1.1\r\nX: \xff\r\n\r\n',
@@ -290,6 +292,7 @@ class ServerProp(Prop):
         outstanding = []
         yielded = []
         answered = {}          # client -> list of uris in the order the application answered them
+        statics = {}           # client -> serialisations of the static answers supplied for its requests, in order
         rx = {}
         status = {}
         polls = []
@@ -334,6 +337,12 @@ class ServerProp(Prop):
                         mm = re.match(rb'/c(\d+)/', uri)
                         if mm:
                             answered.setdefault(int(mm.group(1)), []).append((uri, op[0] == 12))
+                            if op[0] == 7:
+                                # a static answer: the exact bytes the client must receive for it
+                                statics.setdefault(int(mm.group(1)), []).append(pyhttp.serialize(pyhttp.build(op[2])))
+                        elif op[0] == 7:
+                            # answer to a request whose URI carries no client tag (a malformed-looking request the grammar accepts)
+                            statics.setdefault(-1, []).append(pyhttp.serialize(pyhttp.build(op[2])))
                     elif 'Err' in ln:
                         errs.append((i, ln))
                 elif ' drain ' in ln:
@@ -345,7 +354,7 @@ class ServerProp(Prop):
                         quiet_drains.append((c, sentb.get(c, 0), rx[c]))
                     if flushed:
                         flush_drains.append((c, rx[c], [u for (u, e) in answered.get(c, []) if e]))
-        return {'quiet_drains': quiet_drains, 'flush_drains': flush_drains, 'yielded': yielded, 'answered': answered, 'rx': rx, 'status': status, 'polls': polls,
+        return {'quiet_drains': quiet_drains, 'flush_drains': flush_drains, 'yielded': yielded, 'answered': answered, 'statics': statics, 'rx': rx, 'status': status, 'polls': polls,
                 'errs': errs, 'end': end, 'outstanding': outstanding}
 
     def viol(self, t, exp, obs, sig):
@@ -425,7 +434,43 @@ def large_oracle(prop, t, m, a, v):
     return False
 
 
-def check_client_bytes(prop, t, a, v, clients=None):
+CONTINUES = [pyhttp.serialize(pyhttp.build([ver, 0, []])) for ver in (0, 1)]
+
+
+def server_generated(raw, sl, body):
+    """the replies the server produces itself have fixed shapes: the bare 100 Continue of either version, the 400 with
+    its JSON explanation, a 500, the fixed 503"""
+    if raw in CONTINUES or raw == SERVER_FULL:
+        return True
+    if sl == b'HTTP/1.1 400 ' and body.startswith(b'{ "error": "') and body.endswith(b'All previous unanswered requests will be dropped." }'):
+        return True
+    return sl == b'HTTP/1.1 500 '
+
+
+def static_cases(prop, rng, tier):
+    """every static response shape the generators know, answered to the first of two pipelined requests, an echo to the
+    second: the client must receive exactly the two serialisations"""
+    out = []
+    for resp in RESPS:
+        for _ in range(2 if tier == 'quick' else 20):
+            h = Hist(rng)
+            c = h.connect()
+            h.ops.append([11, 4])
+            h.request(c, pipelined=2, poll_between=False)
+            h.ops.append([11, 8])
+            first = rng.random() < 0.5
+            if first:
+                h.ops += [[7, 0, resp], [12, 0]]
+            else:
+                h.ops += [[12, 0], [7, 0, resp]]
+            if rng.random() < 0.5:
+                h.ops.append([8])
+            h.finish()
+            out.append(prop.mk(h, 0, {'kind': 'static-answer-shapes'}))
+    return out
+
+
+def check_client_bytes(prop, t, a, v, clients=None, complete=False):
     """C07's oracle: every byte a client receives belongs to a well-formed response that is either the
     application's answer to one of that client's own requests (at most once, in the order supplied) or a
     server-generated 100/400/500/503"""
@@ -437,9 +482,33 @@ def check_client_bytes(prop, t, a, v, clients=None):
             # the last response may be cut by the moment of the drain only if more is coming; all our histories end quiescent
             v.append(prop.viol(t, 'client %d receives a sequence of well-formed responses' % c, repr(data[-200:]), 'malformed'))
             continue
+        # the raw bytes of each response, to compare static answers byte for byte
+        raws = []
+        rest = data
+        while rest:
+            one = pyhttp.read_response(rest)
+            raws.append(rest[:len(rest) - len(one[1])])
+            rest = one[1]
+        statics = list(a.get('statics', {}).get(c, []))
+        sk = 0
         want = [u for (u, echo) in a['answered'].get(c, []) if echo]
         k = 0
-        for (sl, hs, body) in rs:
+        for ri, (sl, hs, body) in enumerate(rs):
+            if not body.startswith(b'echo:'):
+                # a static answer supplied for one of this client's requests (in order, at most once), or a reply the
+                # server generates itself (100, 400, 500, 503)
+                raw = raws[ri]
+                if raw in statics[sk:]:
+                    sk = statics.index(raw, sk) + 1
+                    continue
+                if raw in a.get('statics', {}).get(-1, []):
+                    continue
+                if not server_generated(raw, sl, body):
+                    v.append(prop.viol(t, 'client %d: every response that is not server-generated is, byte for byte, a response the '
+                                       'application supplied for one of its requests (in order, at most once)' % c,
+                                       repr(raw[:160]), 'foreign-response'))
+                    break
+                continue
             if body.startswith(b'echo:'):
                 uri = body[5:]
                 if not re.match(rb'/c\d+/', uri):
@@ -459,6 +528,10 @@ def check_client_bytes(prop, t, a, v, clients=None):
                 if code not in (b'100', b'400', b'500', b'503', b'200', b'204', b'404', b'401'):
                     v.append(prop.viol(t, 'a known status', repr(sl), 'unknown-response'))
                     break
+        else:
+            if complete and sk < len(statics):
+                v.append(prop.viol(t, 'client %d receives every supplied response in full (%d static answers supplied)' % (c, len(statics)),
+                                   '%d of them found in what it received' % sk, 'static-delivery'))
 
 
 class C07(ServerProp):
@@ -562,6 +635,7 @@ class C07(ServerProp):
         # responses larger than the socket buffer (short writes on the real socket), also with a second answer queued
         # behind the partially written one
         out += large_cases(self, rng, tier, 4, 40)
+        out += static_cases(self, rng, tier)
         # three or more pipelined requests, some answered, a single poll (which sends one answer), the rest answered,
         # then everything is delivered: the client must see the answers in the order they were supplied
         for _ in range(150 if tier == 'quick' else 5000):
@@ -641,6 +715,7 @@ class C08(ServerProp):
             h.finish()
             out.append(self.mk(h, 0, {'kind': 'batch-flush-drain'}))
         out += large_cases(self, rng, tier, 6, 60)
+        out += static_cases(self, rng, tier)
         return out
 
     def oracle(self, cases, impl):
@@ -677,6 +752,11 @@ class C08(ServerProp):
                                            repr(echoes[:6]) if rs is not None else 'unparseable bytes', 'delivery'))
                         break
                 else:
+                    # static answers arrive byte for byte, all of them
+                    nv = len(v)
+                    check_client_bytes(self, t, a, v, clients=[c for c in a['rx'] if c in m.get('alive', [])], complete=True)
+                    if len(v) > nv:
+                        continue
                     # no stall: when the epoll descriptor has stopped signalling, a client that has sent the complete
                     # head of an Expect request has received its 100 Continue
                     stalled = None
@@ -769,6 +849,37 @@ class C09(ServerProp):
             h.ops.append([6])
             h.witness = w
             out.append(self.mk(h, 0, {'kind': 'unwritable-client-answered-quietly', 'witness': w}))
+        # every kind of malformed request the connection-level generator knows (several draws each), sent by one client
+        # between two round trips of the witness
+        fixed = [b'GET / \r\n\r\n', b'PUT /x    \r\n\r\n', b'GET /\r\n\r\n', b'GET  \r\n', b' \r\n', b'\r\n\r\n\r\n', b'GET / HTTP/1.1 \r\n\r\n',
+                 b'GET / HTTP/1.\r\n\r\n', b'PUT / HTTP/1.1\r\nContent-Length:\r\n\r\n', b'PUT / HTTP/1.1\r\nContent-Length: \r\n\r\n',
+                 b'GET / HTTP/1.1\r\nAccept-Encoding: gzip;q=\r\n\r\n', b'GET / HTTP/1.1\r\n:\r\n\r\n', b'GET / HTTP/1.1\r\n: \r\n\r\n',
+                 b'GET / HTTP/1.1\r\nAccept:\r\n\r\n', b'GET / HTTP/1.1\r\nExpect:\r\n\r\n', b'GET / HTTP/1.1\r\nTransfer-Encoding:\r\n\r\n']
+        for kind in list(reqgen.CORRUPTIONS) + [None] * len(fixed):
+            for rep in range((3 if tier == 'quick' else 40) if kind is not None else 1):
+                h = Hist(rng)
+                w = h.connect()
+                o = h.connect()
+                h.ops.append([11, 6])
+                h.request(w, poll_between=False)
+                h.ops.append([11, 8])
+                h.ops.append([12, 0])
+                h.ops.append([11, 8])
+                h.drain(w)
+                if kind is None:
+                    bad = fixed.pop()
+                    h.ops.append([1, o, bad])
+                else:
+                    h.ops.append([1, o, reqgen.gen_bad_request(rng, 51200, kind)[0]])
+                h.ops.append([11, 8])
+                if rng.random() < 0.5:
+                    h.ops.append([1, o, b'GET /c%d/after HTTP/1.1\r\n\r\n' % o])
+                    h.ops.append([11, 8])
+                h.request(w, poll_between=False)
+                h.finish(clients=[w])
+                h.ops.append([5, o])
+                h.witness = w
+                out.append(self.mk(h, 0, {'kind': 'witness+malformed:' + (kind or 'fixed'), 'witness': w}))
         # responses larger than the socket buffer, delivered over many short writes while the client reads in rounds
         out += large_cases(self, rng, tier, 2, 20)
         return out
